@@ -119,6 +119,9 @@ func (c *reconnectClient) Connect(ctx context.Context, clientID string, opts ...
 								case <-ctxKeepAlive.Done():
 									// Keep alive is stopped as the connection was ended or replaced.
 									return
+								case <-c.disconnected:
+									// Ping was interrupted by Disconnect.
+									return
 								default:
 								}
 								verifEvent("kaErr")
